@@ -3,7 +3,9 @@
    values, bare value tokens, and a set of malformed tokens; vectors of up to MaxLen tokens; the probe registry.
    Counts and seeds are digit strings: small ones (Nums, written by Digits) and named texts (NumText) that cover the whole
    documented range 1..2^32-1 - 2^31-1, 2^31, a ten-digit value, 2^32-1, leading zeros - and its outside (2^32, 2^32+5,
-   eleven digits, zero). *)
+   eleven digits, zero).
+   Words (GWords, NWords): every non-empty word of up to n letters over the group / name letters, as filter texts and as the
+   groups / names of the word registry (WordTests), with the vectors of one filter option over them (WordVectors). *)
 EXTENDS CmdLine
 CONSTANTS GChars, NChars, Nums,      \* one-letter group values, one-letter name values (byte codes), counts (naturals)
           BigNums,                   \* names of further counts / seeds inside the documented range (NumText)
@@ -63,6 +65,20 @@ NumVectors == UNION { { <<p \o n>>, <<p, n>> } \cup
                       UNION { { <<p \o n, t>>, <<p, n, t>>, <<t, p \o n>>, <<t, p, n>> } : t \in NumFollow }
                       : p \in {T_dr, T_ds}, n \in AllNumbers }
 VectorsOfLen(n) == [1..n -> Tokens]
+
+\* ---- the substring meaning of the filters: words.  Filter texts and test group / name words are ALL non-empty words of up to
+\* n letters over the group (name) letters, so every way a text can lie in a name is present: at the start, in the middle, at
+\* the end, twice, overlapping itself, and behind a partial occurrence of itself (text "AAB" in group "AAAB").
+GWords(n) == SeqsUpTo(GChars, n) \ {<<>>}
+NWords(n) == SeqsUpTo(NChars, n) \ {<<>>}
+\* the word registry: one test for every pair of a group word and a name word (as a set; Gen_CmdLine writes it as a sequence)
+WordTests(n) == { [g |-> g, n |-> w, ign |-> FALSE] : g \in GWords(n), w \in NWords(n) }
+\* vectors of one filter option with a word (pair) as value, attached and separated, and the TEST forms
+WordGroupVectors(n) == UNION { { <<p \o g>>, <<p, g>> } : p \in GroupOpts, g \in GWords(n) }
+WordNameVectors(n) == UNION { { <<p \o w>>, <<p, w>> } : p \in NameOpts, w \in NWords(n) }
+WordDotVectors(n) == UNION { { <<p \o g \o <<46>> \o w>>, <<p, g \o <<46>> \o w>> } : p \in DotOpts, g \in GWords(n), w \in NWords(n) }
+WordTestFormVectors(n) == UNION { { <<T_TESTL \o g \o T_commasp \o w \o <<41>>>>, <<T_IGNORE_TESTL \o g \o T_commasp \o w \o <<41>>>> } : g \in GWords(n), w \in NWords(n) }
+WordVectors(n) == WordGroupVectors(n) \cup WordNameVectors(n) \cup WordDotVectors(n) \cup WordTestFormVectors(n)
 
 \* the probe registry: groups A, AB, B x names x, xy, y, and two ignored tests
 PT(g, n, ign) == [g |-> g, n |-> n, ign |-> ign]
